@@ -3,7 +3,7 @@
 From Coq Require Import List Arith Bool NArith.
 From GV Require Import Base.Result Gen.TokenTypes Gen.Defs Gen.Instr Model.Parser Model.BuilderWL Model.Compile
   Spec.WfCode Proofs.C05.Known Proofs.C05.WfSound Proofs.C05.Bounded Proofs.C05.Refuted Proofs.C05.Operands Proofs.C05.Jumps Proofs.C05.Bodies Proofs.C05.Bounded7.
-From GV Require Import Proofs.C05.Statements.
+From GV Require Import Proofs.C05.Statements Proofs.Builder.Transport.
 Import ListNotations.
 
 (* the executable checker (run natively on every real instruction stream by the
@@ -112,6 +112,45 @@ Definition C05_full_statement : Prop :=
 Theorem C05_full : C05_full_statement.
 Proof. exact C05_full_proof. Qed.
 Print Assumptions C05_full.
+
+(* ---- the tree compiler IS the builder, for every node array ---- *)
+(* For EVERY node array [nodes] and root that form a proper tree
+   ([tree_of nodes root = Some t]: every link in range, every node reached once
+   -- what the parser's validate_tree enforces), every initial state of the data
+   object, every literal oracle and every amount of fuel: if the worklist model
+   of build() (Model/BuilderWL.v, the transliteration that is diffed against the
+   Rust on every run) succeeds, the structurally recursive tree compiler
+   (Model/Compile.v) succeeds with exactly the same instructions, metadata, jump
+   table and entry.  By induction on the tree: one iteration of the node loop is
+   one visit of a node, draining a subtree emits its inline code and registers
+   its bodies and arms (Proofs/Builder/DrainSim.v), the root loop emits the
+   bodies LIFO (Proofs/Builder/RootsSim.v). *)
+Theorem compile_agrees_full : forall nodes root t init lit fuel r,
+  tree_of nodes root = Some t ->
+  build nodes init lit fuel root = Ok r ->
+  compile init lit t = Ok (mkC (instrs (fst r)) (meta (fst r)) (jumps (fst r)), snd r).
+Proof. exact compile_agrees_full_proof. Qed.
+Print Assumptions compile_agrees_full.
+
+(* ... in the vocabulary of the bounded agreement theorems above *)
+Theorem C05_compile_same_code_full : forall nodes root t init lit fuel r,
+  tree_of nodes root = Some t -> build nodes init lit fuel root = Ok r ->
+  exists c, compile init lit t = Ok c /\ same_code c r = true.
+Proof. exact compile_same_code_proof. Qed.
+Print Assumptions C05_compile_same_code_full.
+
+(* C05_full and C05_operands_meta_all_trees, directly on BuilderWL.build *)
+Theorem C05_full_builder : forall nodes root t init lit fuel r,
+  tree_of nodes root = Some t -> ~ Known_C05_K1 init t -> ~ Known_C05_K2 t ->
+  build nodes init lit fuel root = Ok r -> wf_code nodes init (code_of_build r).
+Proof. exact C05_full_builder_proof. Qed.
+Print Assumptions C05_full_builder.
+
+Theorem C05_operands_meta_builder : forall nodes root t init lit fuel r,
+  tree_of nodes root = Some t -> build nodes init lit fuel root = Ok r ->
+  operands_wf nodes init (code_of_build r) /\ meta_wf nodes (code_of_build r).
+Proof. exact C05_operands_meta_builder_proof. Qed.
+Print Assumptions C05_operands_meta_builder.
 
 (* non-vacuity: a program with a conditional, a logical operator and a nested
    expression is accepted, is in no excluded class, and is well-formed *)
